@@ -35,7 +35,7 @@ theorem Sem.dropAcquire_closed' (s : Sem) (me : Nat) : (s.dropAcquire me).closed
 
 macro "frame_simp" h:ident : tactic => `(tactic|
   simp only [State.setOp, State.emit, arriveRecycle, handOut, arrivePostCreate, failPermit,
-    finishResize, returnResize, sumW_set' _ _ $h, Op.rzW, Nat.zero_sub, Nat.add_zero,
+    finishResize, sumW_set' _ _ $h, Op.rzW, Nat.zero_sub, Nat.add_zero,
     Sem.addPermits_closed, Sem.dropAcquire_closed'] at *)
 
 macro "frame_close" h:ident : tactic => `(tactic| (
